@@ -679,7 +679,10 @@ def _sweep_class_algebra(ctx, model, exc_classes):
     CLS = "pregex.core.classes"
     fns = {"|": model.method(CLS, "__Class", "__or"), "-": model.method(CLS, "__Class", "__sub")}
     jobs = []
-    for alpha in ("+,-.", "ab^]") if ctx.tier == "quick" else ("+,-./", "abc^]", "\\[]-"):
+    # (the last two alphabets are the ends of the code-point space, where `chr(ord(c) +- 1)` does not exist: an operation that
+    # computes a neighbour it does not need fails there with ValueError)
+    edges = ("\x00\x01\x02", "\U0010fffd\U0010fffe\U0010ffff")
+    for alpha in (("+,-.", "ab^]") if ctx.tier == "quick" else ("+,-./", "abc^]", "\\[]-")) + edges:
         lst = c07.forms(alpha, W, False)
         for (ma, ta), (mb, tb) in itertools.product(lst, lst):
             for op in ("|", "-"):
@@ -689,6 +692,8 @@ def _sweep_class_algebra(ctx, model, exc_classes):
     for (alpha, neg, ma, ta, mb, tb, op, order), (kind, payload) in zip(jobs, res):
         n += 1
         inp = f"{ta} {op} {tb}"
+        if not inp.isprintable():
+            inp = inp.encode("unicode_escape").decode("ascii")
         ctx.instance("R-TOTAL", key=("class algebra", inp), sample=f"{inp} -> {kind} {payload[0] if kind == 'raise' else ''}")
         f = fns[op]
         if kind == "incomplete" and "fuel exhausted" in payload:
